@@ -2,7 +2,8 @@
     stay intact.  Statements only; proofs in Proofs/C18_parser.v. *)
 From InvokeVerif Require Import Corr.C18Corr Proofs.C07_fuel Proofs.C18_parser.
 From InvokeVerif Require Import Spec.C01Spec Proofs.C01_steps Proofs.C01_occ Proofs.C01_roundtrip
-     Proofs.C01_final Proofs.C18_placement Proofs.C18_program.
+     Proofs.C01_final Proofs.C18_placement Proofs.C18_program Proofs.C18_values
+     Proofs.C18_program_values.
 
 (** Remainder (full): everything after the first bare "--" is the remainder,
     verbatim; and the parse of the rest is a function of the tokens before it. *)
@@ -194,6 +195,90 @@ Theorem C18_program_placement_equiv_partial :
         g_core gf = g_core gp /\ g_tasks gf = g_tasks gp /\ g_tasks gp = expected cs inv /\
         g_remainder gf = g_remainder gp.
 Proof. exact program_placement_equiv. Qed.
+
+(** Placement equivalence for WHOLE CORE PREFIXES, value-taking options
+    included -- the widest proved form.  A list [os] of core options, each
+    ([copt_ok], a boolean guard evaluated against the state of the initial
+    context left by the options before it):
+      - an exact flag spelling ([clean_flag]) that resolves to the argument it
+        names, not --help;
+      - CBare: a boolean non-counter option;  CNext "--opt value" / CEq
+        "--opt=value" / CGlued "-ovalue" (front only, short flag, non-empty
+        value without "="): a value-taking, non-list option not given before,
+        value not starting with "-", an integer text for int options, and for
+        an optional-value option not a task name;
+    moved together to after ANY complete item of ANY call of a simple invocation
+    (glued ones respelled with "="), provided the task there does not shadow any
+    of them and none is a task name ([copt_free]).  Guard of the boolean form:
+    placement after a complete item, no pending value, no missing positional
+    (simple fragment: tasks without required positionals), form <> glued inside
+    a task -- exactly the complement of F-C18a/b/c on this fragment.
+    Task-parsing pass: literally the same result. *)
+Theorem C18_prefix_placement_equiv_partial :
+  forall cs ic os calls1 t asn items1 items2 calls2 c,
+    let inv := calls1 ++ mkCall t asn (items1 ++ items2) :: calls2 in
+    simple_guard cs ic inv = true ->
+    nth_error cs t = Some c ->
+    forallb (copt_free cs c) os = true ->
+    copts_ok true cs (rc_args (init_ctx ic)) os = true ->
+    exists res,
+      parser_parse cs (Some ic) false (flat_map spell_copt os ++ spell cs inv) = Ok res /\
+      parser_parse cs (Some ic) false
+        (spell cs calls1 ++ (asn :: flat_map (spell_item c) items1)
+         ++ flat_map spell_copt (map unglue os) ++ flat_map (spell_item c) items2 ++ spell cs calls2)
+        = Ok res /\
+      map obs_of_ctx (tl (pr_ctxs res)) = expected cs inv.
+Proof. exact core_prefix_placement_equiv. Qed.
+
+(** ... and through both passes of Program and _update_core_context: same
+    Program.args values, same task calls, same remainder. *)
+Theorem C18_program_prefix_placement_equiv_partial :
+  forall cs ic os calls1 t asn items1 items2 calls2 c,
+    let inv := calls1 ++ mkCall t asn (items1 ++ items2) :: calls2 in
+    simple_guard cs ic inv = true ->
+    nth_error cs t = Some c ->
+    forallb (copt_free cs c) os = true ->
+    copts_ok true cs (rc_args (init_ctx ic)) os = true ->
+    exists gf gp,
+      prog_obs ic cs (flat_map spell_copt os ++ spell cs inv) = Ok gf /\
+      prog_obs ic cs (spell cs calls1 ++ (asn :: flat_map (spell_item c) items1)
+                      ++ flat_map spell_copt (map unglue os)
+                      ++ flat_map (spell_item c) items2 ++ spell cs calls2) = Ok gp /\
+      g_core gf = g_core gp /\ g_tasks gf = g_tasks gp /\ g_tasks gp = expected cs inv /\
+      g_remainder gf = g_remainder gp.
+Proof. exact program_prefix_placement_equiv. Qed.
+
+(** [C18_core_prefix]: a prefix made only of admissible core option spellings is
+    consumed entirely by the core pass; everything from the first plain word on
+    is handed to the task pass. *)
+Theorem C18_core_prefix_partial : forall ic cs os t rest,
+  has_missing (init_ctx ic) = false ->
+  copts_ok true cs (rc_args (init_ctx ic)) os = true ->
+  starts_with "-" t = false ->
+  Forall (fun x => x <> "--") (t :: rest) ->
+  parser_parse [] (Some ic) true (flat_map spell_copt os ++ t :: rest)
+  = Ok (mkRes [with_args (init_ctx ic) (apply_copts (rc_args (init_ctx ic)) os)] (t :: rest) "").
+Proof. exact core_pass_prefix. Qed.
+
+(** Non-vacuity: "-e --config=x.yml -T5 -D 2" (boolean, "=", glued, spaced) of
+    the real core context, in front vs. in the middle of the first call
+    (-T5 respelled -T=5). *)
+Example C18_prefix_hypotheses_inhabited :
+  let os := [mkCopt "-e" 5 CBare ""; mkCopt "--config" 2 CEq "x.yml";
+             mkCopt "-T" 0 CGlued "5"; mkCopt "-D" 9 CNext "2"] in
+  copts_ok true ex_cs (rc_args (init_ctx core_ctx)) os = true /\
+  flat_map spell_copt os = ["-e"; "--config=x.yml"; "-T5"; "-D"; "2"] /\
+  flat_map spell_copt (map unglue os) = ["-e"; "--config=x.yml"; "-T=5"; "-D"; "2"] /\
+  exists gf gp,
+    prog_obs core_ctx ex_cs ["-e"; "--config=x.yml"; "-T5"; "-D"; "2"; "b"; "-i"; "a"; "--clean"; "deploy"; "-t=prod"] = Ok gf /\
+    prog_obs core_ctx ex_cs ["b"; "-i"; "a"; "-e"; "--config=x.yml"; "-T=5"; "-D"; "2"; "--clean"; "deploy"; "-t=prod"] = Ok gp /\
+    g_core gf = g_core gp /\ g_tasks gf = g_tasks gp /\
+    kw_get "command-timeout" (g_core gp) = Some (AInt 5) /\ kw_get "config" (g_core gp) = Some (AStr "x.yml").
+Proof.
+  cbv zeta. split; [vm_compute; reflexivity|]. split; [reflexivity|]. split; [reflexivity|].
+  eexists. eexists. split; [vm_compute; reflexivity|]. split; [vm_compute; reflexivity|].
+  repeat split; vm_compute; reflexivity.
+Qed.
 
 (** ... the core pass hands a command line that starts with a task name to the
     task pass untouched ([C18_core_prefix] for the empty prefix) ... *)
